@@ -922,5 +922,14 @@ func (vc *FnVC) clauseApplies(cl *Clause) bool {
 	if len(cl.Tags) == 0 || vc.prop == "" {
 		return true
 	}
-	return hasTag(cl.Tags, vc.prop)
+	if hasTag(cl.Tags, vc.prop) {
+		return true
+	}
+	// a property declared to be checked within the scopes of others (`propertyscope C10 C01 C07`)
+	for _, inc := range vc.prog.cs.PropertyScope[vc.prop] {
+		if hasTag(cl.Tags, inc) {
+			return true
+		}
+	}
+	return false
 }
